@@ -132,7 +132,7 @@ class Ctx:
 
     # ------------------------------------------------------------------ R1
     def r1(self, rid, fn, require, sink="ok", via=2, truth=None, start=None, start_where=None,
-           sink_where=None, require_where=None, desc=None, allow_unchecked=False, extra_cuts=()):
+           sink_where=None, require_where=None, desc=None, allow_unchecked=False, extra_cuts=(), called_only=False):
         """Every path from entry (or from the calls `start`) to `sink` passes the success edge of a `require` call.
         sink: 'ok' | 'return' | call pattern. require: call pattern."""
         F = self.F
@@ -150,6 +150,9 @@ class Ctx:
         site_locs = []
         for bi, how in sites:
             e, kind = success_edges(f, bi, truth=truth)
+            if called_only:
+                # obligation is only that the call is made (its failure is tolerated by design at this site)
+                e, kind = [(bi, f["blocks"][bi]["term"]["t"])], "called"
             if kind in ("unchecked", "diverges") and not allow_unchecked:
                 kinds.append(kind)
                 continue
@@ -225,6 +228,14 @@ class Ctx:
                 am = dict(arms)
                 out.append(els if value == "else" else am.get(str(value), els))
         return out
+
+    def loop(self, rid, fn, require, over, desc=None, via=0, called_only=False, extra_cuts=(), require_where=None):
+        """Loop funnel: in the `for` loop whose iterator expression matches regex `over`, every iteration
+        (path from the loop's `next` back to the same `next`) passes the success edge of `require`."""
+        NEXT = "re:iter::traits::iterator::Iterator::next$"
+        return self.r1(rid, fn, require, sink=NEXT, sink_where=over, start=NEXT, start_where=over, via=via, called_only=called_only,
+                       extra_cuts=extra_cuts, require_where=require_where,
+                       desc=desc or "%s: every iteration over `%s` passes %s" % (short(fn, 2), over, require))
 
     def r1_all(self, rid, fn, requires, **kw):
         ok = True
@@ -424,8 +435,24 @@ class Ctx:
             for (bi, pass_t, fail_t, txt) in good:
                 cuts.append((bi, pass_t))
             for bp in bypass:
-                for (bi, t_true, t_false, txt) in self.find_guard(key, bp.get("ops", ()), bp.get("lhs", ()), bp.get("rhs", ()), bp.get("any_side", ()), bp.get("cond")):
-                    cuts.append((bi, t_true if bp.get("edge", True) else t_false))
+                # bypass = (regex over the rendered switch discriminant, arm) with arm in true|false|else|<value>
+                cond_rx, arm = bp
+                nb = 0
+                for bi, e, arms, els in self.guards(key):
+                    if re.search(cond_rx, render(e)):
+                        am = dict(arms)
+                        if arm == "true":
+                            t = els
+                        elif arm == "false":
+                            t = am.get("0", els)
+                        elif arm == "else":
+                            t = els
+                        else:
+                            t = am.get(str(arm), els)
+                        cuts.append((bi, t))
+                        nb += 1
+                if nb == 0:
+                    return self.lost(rid, "R2", key, d, "bypass condition not found: %s" % cond_rx)
             # cutting the passing edges: the sink must become unreachable
             cutset = set(cuts)
             # a guard whose pass and fail targets coincide is neutralised
